@@ -6,6 +6,7 @@
 #include <glm/gtx/norm.hpp>
 #include <glm/gtx/projection.hpp>
 #include <glm/gtx/perpendicular.hpp>
+#include <glm/gtx/vector_angle.hpp>
 using namespace orc;
 typedef long double LD;
 template<class T> static const char* tn(); template<> const char* tn<float>() { return "f32"; } template<> const char* tn<double>() { return "f64"; }
@@ -45,6 +46,11 @@ template<int L, class T> static void run(Rng& g, int n) {
 			// faceforward including dot == 0 exactly (small integer vectors)
 			{ auto Nn = rnd<L, T>(g, 4), Ii = rnd<L, T>(g, 4), Nr = rnd<L, T>(g, 4); if (it % 7 == 0) { for (int i = 0; i < L; ++i) Ii[i] = 0; } LD d = ldot(Nr, Ii); count("faceforward" + sfx); auto f = glm::faceforward(Nn, Ii, Nr); bool ok = true; for (int i = 0; i < L; ++i) if (!(f[i] == (d < 0 ? Nn[i] : -Nn[i]))) ok = false;
 			  if (!ok) fail("faceforward" + sfx, d == 0 ? "dot==0" : "sign", "N=" + vs(Nn) + " I=" + vs(Ii) + " Nref=" + vs(Nr), d < 0 ? "N" : "-N", vs(f)); }
+			// gtx angle of unit vectors: parallel, antiparallel and generic pairs; the reference avoids acos (2 atan2(|u - v|, |u + v|));
+			// acos near +-1 amplifies one rounding of the dot product to sqrt(eps)
+			if (L > 1 && aa > 1e-20L && aa < 1e20L && bb > 1e-20L && bb < 1e20L) { auto u = glm::normalize(a), v = glm::normalize(b); glm::vec<L, T> ws[3] = { u, -u, v }; const char* cls[3] = { "parallel", "antiparallel", "generic" };
+				for (int k = 0; k < 3; ++k) { count("angle" + sfx); auto w = ws[k]; LD dm = 0, dp = 0; for (int i = 0; i < L; ++i) { dm += ((LD)u[i] - w[i]) * ((LD)u[i] - w[i]); dp += ((LD)u[i] + w[i]) * ((LD)u[i] + w[i]); }
+					LD ref = 2 * atan2l(sqrtl(dm), sqrtl(dp)), got = glm::angle(u, w); if (!(fabsl(got - ref) <= 4 * sqrtl(eps) + 64 * eps)) fail("angle" + sfx, cls[k], vs(u) + " " + vs(w), str((double)ref), str((double)got)); } }
 			{ count("length2" + sfx); LD got = glm::length2(a); if (!(fabsl(got - aa) <= 8 * eps * aa)) fail("length2" + sfx, "value", vs(a), str((double)aa), str((double)got)); }
 		}
 	}
